@@ -471,7 +471,11 @@ class Expr:
                 return self.hash_guard(k, VBool(z3.Select(th.m_hasA(cont.term), k)), st, f'contains:{self.src(node)}', item)
             if kind == 'set':
                 return self.hash_guard(k, VBool(z3.Select(th.s_hasA(cont.term), k)), st, f'contains:{self.src(node)}', item)
-            if kind in ('seq', None, 'str'):
+            if kind in ('seq',):
+                j = th.fresh('j', th.I)
+                st.add(th.vlen(cont.term) >= 0)
+                return [(VBool(z3.Exists([j], z3.And(j >= 0, j < th.vlen(cont.term), z3.Select(th.sq_arr(cont.term), j) == k))), st)]
+            if kind in (None, 'str'):
                 return [(VBool(th.seq_contains(cont.term, k)), st)]
         raise OutOfSubset(f'membership in {type(cont).__name__}', node)
 
